@@ -324,6 +324,26 @@ def replay_eqc(a):
     return None if not bad else {"mismatches": [(f, o, e, g) for f, o, _a, e, g in bad]}
 
 
+def task_subsub(a, env):
+    """classes derived from an already used concrete class with another prime / modulus (both families)"""
+    from . import C08
+
+    r = R("subclass-of-subclass-sequences")
+    for fam in ("ref", "opt"):
+        for (p1, mc1, p2, mc2) in a["cases"]:
+            bad = C08.subsub_case(fam, p1, mc1, p2, mc2, a["xs"])
+            r.ev += 30
+            r.transitions += 3
+            r.dk.add((fam, p1, tuple(mc1), p2, tuple(mc2)))
+            for (step, cfgd, op, args, exp, got) in bad[:1]:
+                r.viol("C14:FQ2:subclass-of-subclass:%s:%s" % (fam, op), "mc.props.C08:replay_subsub",
+                       {"fam": fam, "p1": p1, "mc1": list(mc1), "p2": p2, "mc2": list(mc2), "xs": a["xs"]}, exp, got,
+                       note="step %d (%s) of A, B(A), A" % (step, cfgd))
+    r.states = len(a["cases"])
+    r.sample({"sequence": "class A(p1, mc1) used; B(A) overriding prime and modulus used; A again", "cases": a["cases"][:2]})
+    return r
+
+
 def task_bfs(a, env):
     curve, grp, depth = a["curve"], a["group"], a["depth"]
     cfgs = full_cfgs(curve)
@@ -471,6 +491,10 @@ def run(ctx):
         full.append(("bfs", {"curve": curve, "group": "E1", "depth": 2 if ctx.quick else 3,
                              "square": True, "cap": 600 if ctx.quick else 1500}))
     full.append(("eq_collisions", {}))
+    q7, q11, q5 = fl.quadratics(7), fl.quadratics(11), fl.quadratics(5)
+    full.append(("subsub", {"xs": [[0, 1], [1, 1], [2, 6], [3, 4]],
+                            "cases": [(7, list(q7[0]), 11, list(q11[0])), (11, list(q11[1]), 7, list(q7[2])),
+                                      (5, list(q5[0]), 7, list(q7[-1])), (7, list(q7[1]), 7, list(q7[3]))]}))
     ctx.bounds["bfs"] = "depth 2 (quick) / 3 (thorough FQ, FQ2); FQ12 depth 2 with one leaf operand"
     tasks.sort(key=lambda t: -(len(t[1].get("mc") or []) * 10 + t[1].get("p", 0)))
     ctx.pmap(ME, full + tasks)
